@@ -146,8 +146,12 @@ func (g *c13Gen) size() int {
 	if g.r.Chance(12) {
 		cands = append(cands, 65535, 65536, 65537, 65536+B)
 	}
-	if g.c.Thorough() && g.r.Chance(3) {
-		cands = append(cands, 1<<20, 1<<20+1, 3<<20)
+	if g.c.Thorough() && g.r.Chance(3) && B >= 125 {
+		// multi-megabyte messages (the oracle's List UInt8 costs ~100 bytes per byte: keep the frame count and wire size bounded)
+		cands = append(cands, 1<<20, 1<<20+1)
+		if B >= 4096 {
+			cands = append(cands, 3<<20)
+		}
 	}
 	n := cands[g.r.Intn(len(cands))]
 	if n < 0 {
@@ -412,6 +416,11 @@ func c13Session(c *h.Ctx, B int, server, deflate bool, level int, nmsg int, with
 	in := fmt.Sprintf("ws.write %s %d %s <keys> %s", role, B, b01(deflate), h.Trunc(strings.Join(g.ops, " "), 700))
 	c.Hold(crashed == "ok", "no_panic", in, crashed, "ok")
 	wire := g.fake.Written()
+	if len(wire) > 5<<20 {
+		c.Note(fmt.Sprintf("session with a %d-byte wire skipped for the oracle (size cap)", len(wire)))
+		c.Case("session/oversize-skipped", in, false)
+		return
+	}
 	wireHex := h.Hex(wire)
 
 	// (1) every byte on the wire parses under the independent RFC 6455/7692 parser for this sender role
